@@ -83,6 +83,7 @@ def check_one(part, A, T, tname, reflect, npat, case):
     got = float(np.sqrt(np.vdot(diff, diff) / len(A)))
     ref, _ = horn.optimal_rmsd(A, B)
     part.dev("excess_rmsd", got - ref)
+    TOL = 1e-8 + 1e-14 * float(np.abs(A).max()) ** 2      # rounding of the covariance grows with the square of the coordinates
     if not (got <= ref + TOL):
         part.fail("suboptimal:" + key, "RMSD after alignment %.9f exceeds the optimum over proper rotations %.9f (%s)" % (got, ref, tname), case)
     if not reflect and npat == "none" and not (got <= TOL):
@@ -361,6 +362,14 @@ def run(ctx):
     for n in range(5, 51):
         sets.append(("prefix1", tuple(enum1[:n]), idx)); idx += 1
         sets.append(("prefix2", tuple(enum2[:n]), idx)); idx += 1
+    # conditioning: thin rods (thickness / length 1e-2 .. 1e-6: nearly collinear, yet the rotation about the long axis is determined) and
+    # small sets far from the origin the rotation is taken about (3e2 .. 1e5: all points nearly parallel as seen from there)
+    kk = np.arange(10.0)
+    for th in (1e-2, 1e-3, 1e-4, 1e-5, 1e-6):
+        sets.append(("rod", tuple(map(tuple, np.c_[kk - 4.5, 9 * th * np.sin(1 + 1.7 * kk), 9 * th * np.cos(2 + 2.3 * kk)])), 10 * idx)); idx += 1
+    base5 = np.array([[0, 0, 0], [1, 0, 0], [0, 1, 0], [0, 0, 1], [1, 1, -1.0]])
+    for off in ((300, -100, 200), (3e3, -1e3, 2e3), (1e4, 2e4, -1.5e4), (1e5, 1e5, 1e5), (0, 0, 5e4)):
+        sets.append(("far", tuple(map(tuple, base5 + np.array(off, dtype=float))), 10 * idx)); idx += 1
     if not ctx.thorough:
         # quick: all triples, every 3rd quadruple, all larger sets
         sets = [s for s in sets if s[0] != "lattice4" or s[2] % 3 == 0]
